@@ -232,7 +232,21 @@ func HarnessC29PublishResolve() {
 			continue
 		}
 		v := op - 1
+		if verifrt.Param("OVERLAP", 1) != 0 && verifrt.NondetBool("resolveDuringPublish") {
+			// a resolve of the same name overlaps this publish: it runs after Publish was called and before
+			// routing holds the new record; whatever it returns (old value, or nothing), it must not make
+			// later resolves return the old value
+			prev := published
+			rt.onPut = func() {
+				res, err := ns.Resolve(ctx, ask)
+				if err == nil && prev >= 0 {
+					verifrt.Assert("C29.overlapped-resolve-returns-a-published-value",
+						res.Path.String() == vals[prev].String() || res.Path.String() == vals[v].String())
+				}
+			}
+		}
 		err := ns.Publish(ctx, sk, vals[v], PublishWithTTL(ttl))
+		rt.onPut = nil
 		verifrt.Assert("C29.namesys-publish-succeeds", err == nil)
 		if err == nil {
 			published = v
